@@ -44,3 +44,87 @@ REG = {"C14": C14}
 def get(prop, tier):
     f = REG.get(prop)
     return f(tier) if f else None
+
+
+# ---------------------------------------------------------------- E-tier (whole autog.Layout)
+
+def shapes(maxN, maxM, selfloops=True, connected=False, **kw):
+    out = []
+    for N in range(1, maxN + 1):
+        for M in range(1, maxM + 1):
+            out += edge_lists(N, M, selfloops=selfloops, connected=connected, **kw)
+    return out
+
+
+OPT_DEFAULT = {"P1": 0, "P2": 0, "P4": 4, "P5": 2, "BK": -1, "SZ": 2, "VIRT": 0, "INTSZ": 0}
+
+
+def layout_ob(name, func, shape_list, dims, consts=None, **kw):
+    cubes = product([shape_cube(s) for s in shape_list], dims)
+    c = dict(OPT_DEFAULT)
+    c.update(consts or {})
+    return dict(name=name, pkg=".", func=func, consts=c, cubes=cubes, **kw)
+
+
+def C04(tier):
+    sh = shapes(3, 3) if tier == "quick" else shapes(4, 4)
+    obs = [layout_ob("layout-no-overlap", "Harness_E_C04", sh, {"P4": [4, 1, 5], "P1": [0, 1], "P2": [0, 1]},
+                     consts={"P5": 0, "SZ": 2},
+                     bounds="all canonical edge lists (self-loops, several components) N<=%d M<=%d x {SinkColoring,VAlign,PackRight} x {greedy,dfs} x {NS,LP}; "
+                            "symbolic: per-node W,H in [0,64], NodeSpacing, LayerSpacing in [0,64], map orders" % ((3, 3) if tier == "quick" else (4, 4)))]
+    return dict(obligations=obs)
+
+
+REG["C04"] = C04
+
+
+def C03(tier):
+    q = tier == "quick"
+    sh = shapes(3, 3) if q else shapes(4, 4)
+    obs = [layout_ob("layout-bands-ns", "Harness_E_C03", sh, {"P4": [4, 1, 5], "P1": [0, 1]},
+                     consts={"P2": 0, "P5": 1, "SZ": 2, "KNOWN_FLAT": 0},
+                     bounds="all canonical edge lists N<=%d M<=%d x {SinkColoring,VAlign,PackRight} x {greedy,dfs} x network-simplex layering; "
+                            "symbolic: per-node sizes, NodeSpacing>=0, LayerSpacing>=1, map orders" % ((3, 3) if q else (4, 4))),
+           layout_ob("layout-bands-lp", "Harness_E_C03", sh, {"P4": [4, 1], "P1": [0, 1]},
+                     consts={"P2": 1, "P5": 1, "SZ": 2, "KNOWN_FLAT": 0},
+                     bounds="same shapes x longest-path layering")]
+    return dict(obligations=obs)
+
+
+def C02(tier):
+    q = tier == "quick"
+    sh = shapes(3, 3) if q else shapes(4, 4)
+    obs = [layout_ob("layout-same-graph", "Harness_E_C02", sh, {"P1": [0, 1], "P2": [0, 1], "SZ": [0, 1, 2, 3], "VIRT": [0, 1]},
+                     consts={"P4": 4, "P5": 2},
+                     bounds="all canonical edge lists N<=%d M<=%d x cycle breakers x layerers x size options x virtual-node output" % ((3, 3) if q else (4, 4)))]
+    return dict(obligations=obs)
+
+
+def C05(tier):
+    q = tier == "quick"
+    sh = shapes(3, 3) if q else shapes(4, 4)
+    obs = [layout_ob("layout-edge-anchors", "Harness_E_C05", sh, {"P5": [1, 2, 3], "P4": [4, 1, 5], "P1": [0, 1]},
+                     consts={"P2": 0, "SZ": 2},
+                     bounds="all canonical edge lists N<=%d M<=%d x {straight,polyline,ortho} x {SinkColoring,VAlign,PackRight} x {greedy,dfs}" % ((3, 3) if q else (4, 4)))]
+    return dict(obligations=obs)
+
+
+def C06(tier):
+    q = tier == "quick"
+    sh = shapes(3, 3) if q else shapes(4, 4)
+    obs = [layout_ob("layout-route-geometry", "Harness_E_C06", sh, {"P5": [1, 2, 3], "P4": [4, 1, 5], "VIRT": [0, 1]},
+                     consts={"P1": 1, "P2": 0, "SZ": 2, "KNOWN_ORTHO": 0},
+                     bounds="all canonical edge lists N<=%d M<=%d x {straight,polyline,ortho} x {SinkColoring,VAlign,PackRight} x virtual-node output" % ((3, 3) if q else (4, 4)))]
+    return dict(obligations=obs)
+
+
+def C01(tier):
+    q = tier == "quick"
+    sh = shapes(3, 3) if q else shapes(4, 4)
+    obs = [layout_ob("layout-returns", "Harness_E_C01", sh, {"P1": [0, 1, 2], "P2": [0, 1], "P4": [4, 1, 5, 3, 2], "P5": [0, 1, 2, 3]},
+                     consts={"SZ": 2},
+                     bounds="all canonical edge lists N<=%d M<=%d x 3 cycle breakers x 2 layerers x 5 positioners x {none,straight,polyline,ortho}" % ((3, 3) if q else (4, 4)))]
+    return dict(obligations=obs)
+
+
+REG.update({"C01": C01, "C02": C02, "C03": C03, "C05": C05, "C06": C06})
